@@ -529,3 +529,24 @@ Proof.
   - cbn [prox_convex_conj]. numR. rewrite Eq. reflexivity.
   - apply (rule_moreau (fdim e) (fval e)); auto. apply fweights_allpos; assumption.
 Qed.
+
+(* non-expansiveness (1-Lipschitz) from firm non-expansiveness + weighted Cauchy-Schwarz *)
+Theorem fprox_nonexpansive_scalar (e : fexprR) (sigma : R) (x1 x2 p1 p2 : Rvec) :
+  wf e -> 0 < sigma -> length x1 = fdim e -> length x2 = fdim e ->
+  fprox e (SScal sigma) x1 = Ok p1 -> fprox e (SScal sigma) x2 = Ok p2 ->
+  wnormsq (fweights e) (vsub p1 p2) <= wnormsq (fweights e) (vsub x1 x2).
+Proof.
+  intros W Hs H1 H2 E1 E2.
+  pose proof (fprox_firmly_nonexpansive_scalar e sigma x1 x2 p1 p2 W Hs H1 H2 E1 E2) as F.
+  destruct (fprox_proxs_all e W _ x1 (sig_ok_scal e W _ Hs) H1) as (q1 & F1 & (L1 & _)).
+  destruct (fprox_proxs_all e W _ x2 (sig_ok_scal e W _ Hs) H2) as (q2 & F2 & (L2 & _)).
+  rewrite E1 in F1. rewrite E2 in F2. injection F1 as <-. injection F2 as <-.
+  pose proof (fweights_allpos e W) as Pw.
+  pose proof (cs_sq (fdim e) (fweights e) (vsub p1 p2) (vsub x1 x2) Pw eq_refl ltac:(auto with vlen) ltac:(auto with vlen)) as C.
+  pose proof (wnormsq_nonneg (fweights e) (vsub p1 p2) Pw) as A0.
+  pose proof (wnormsq_nonneg (fweights e) (vsub x1 x2) Pw) as B0.
+  set (A := wnormsq (fweights e) (vsub p1 p2)) in *. set (B := wnormsq (fweights e) (vsub x1 x2)) in *.
+  set (D := wdot (fweights e) (vsub p1 p2) (vsub x1 x2)) in *.
+  destruct (Rle_dec A B) as [|N]; [assumption|]. exfalso. apply Rnot_le_lt in N.
+  assert (A * A <= D * D) by nra. assert (A * A <= A * B) by lra. nra.
+Qed.
